@@ -251,7 +251,7 @@ package text
 //@   assigns nothing
 
 //@ -- ------------------------------------------------------------------ file
-//@ props C11,C09,C12
+//@ props C11,C09,C12,C06
 
 //@ -- the text obtained by replacing every non-overlapping occurrence of `old` in `s` by `new` (bytes.Replace with n < 0)
 //@ abstract func replaceAll(s string, old string, new string) string
@@ -273,7 +273,7 @@ package text
 //@ func NewFile(filename string, data []byte) (f *File)
 //@   ensures fresh(f) && wfFile(f) && f.offset == 1 && f.lines == nil && f.filename == filename
 //@   ensures f.data == nil || fresh(f.data)
-//@   ensures [crlf;C11] strof(f.data) == replaceAll(strof(data), "\r\n", "\n")
+//@   ensures [crlf;C11,C09,C08] strof(f.data) == replaceAll(strof(data), "\r\n", "\n")
 //@   assigns nothing
 
 //@ import "io/ioutil"
@@ -286,7 +286,7 @@ package text
 //@   ensures  (f == nil) != (err == nil)
 //@   ensures  [own-file;C14] f != nil ==> fresh(f) && wfFile(f) && f.offset == 1 && f.lines == nil && f.filename == filename
 //@   logs ioutil.ReadFile
-//@   ensures  [crlf;C11] f != nil ==> ncalls() == 1 && strof(f.data) == replaceAll(strof(callres[[]byte](1, 0)), "\r\n", "\n")
+//@   ensures  [crlf;C11,C09,C08] f != nil ==> ncalls() == 1 && strof(f.data) == replaceAll(strof(callres[[]byte](1, 0)), "\r\n", "\n")
 //@   assigns  nothing
 
 //@ -- line table: lines[j] is the offset of the first byte of line j+1; line starts are exactly 0 and
